@@ -73,8 +73,9 @@ Definition e4 (c : case) : bool :=
    every listed operation the command it belongs to (oe_cmd = k for the operation added by command k, -(10+k) for an operation
    inside the sub-circuit added by command k) and, for a referent that is a top-level sub-circuit, -(10+k) as oe_refpos.
    An entity's channels are those of the listed operations it contains (a sub-circuit's channel_identifiers are the de-duplicated
-   union of its contents'); its relation depth among the top-level entities is read off the reported referents (a sub-circuit's
-   own relation shows at its first operations, to which the listing hands it down). *)
+   union of its contents'); its relation depth among the top-level entities is read off the referents the top-level handles report
+   (c_top_ref; a sub-circuit's own relation is not always visible at its listed operations: its relation-free first element may
+   be an empty sub-circuit). *)
 Definition top_of (o : oentry) : Z :=
   if 0 <=? oe_cmd o then oe_cmd o else if oe_cmd o <=? -10 then - oe_cmd o - 10 else -1.
 Definition ref_ent (ops : list oentry) (o : oentry) : Z :=
@@ -82,15 +83,14 @@ Definition ref_ent (ops : list oentry) (o : oentry) : Z :=
   else if oe_refpos o <=? -10 then - oe_refpos o - 10 else -1.
 Definition ent_ops (ops : list oentry) (k : Z) : list oentry := filter (fun o => top_of o =? k) ops.
 Definition ent_chans (ops : list oentry) (k : Z) : list ChannelIdentifier := flat_map oe_chans (ent_ops ops k).
-(* the entity an entity is placed after: the referent entity of one of its operations that lies outside it *)
-Definition ent_ref (ops : list oentry) (k : Z) : Z :=
-  match filter (fun r => (0 <=? r) && negb (r =? k)) (map (ref_ent ops) (ent_ops ops k)) with r :: _ => r | [] => -1 end.
-Fixpoint ent_depth (ops : list oentry) (fuel : nat) (k : Z) : Z :=
+(* the entity an entity is placed after, as its handle (the object add() returned) reports it after the listing: c_top_ref *)
+Definition ent_ref (top_ref : list Z) (k : Z) : Z := if k <? 0 then -1 else nth (Z.to_nat k) top_ref (-1).
+Fixpoint ent_depth (top_ref : list Z) (fuel : nat) (k : Z) : Z :=
   match fuel with
   | O => 0
-  | S f => let r := ent_ref ops k in if r <? 0 then 0 else 1 + ent_depth ops f r
+  | S f => let r := ent_ref top_ref k in if r <? 0 then 0 else 1 + ent_depth top_ref f r
   end.
-Definition e4_top_entry (p : list cmd) (ops : list oentry) (o : oentry) : bool :=
+Definition e4_top_entry (p : list cmd) (top_ref : list Z) (ops : list oentry) (o : oentry) : bool :=
   if oe_cmd o <? 0 then true else
   match nth_error p (Z.to_nat (oe_cmd o)) with
   | Some (CAdd _ None) =>
@@ -101,14 +101,15 @@ Definition e4_top_entry (p : list cmd) (ops : list oentry) (o : oentry) : bool :
       | _ => match oe_rel o with
              | Some (t, _, _) => RelationType_eqb t RelationType_FOLLOWED_BY
                                  && existsb (Z.eqb (ref_ent ops o)) cands
-                                 && forallb (fun j => ent_depth ops fuel j <=? ent_depth ops fuel (ref_ent ops o)) cands
+                                 && (ref_ent ops o =? ent_ref top_ref (oe_cmd o))      (* the handle and the listed operation agree *)
+                                 && forallb (fun j => ent_depth top_ref fuel j <=? ent_depth top_ref fuel (ref_ent ops o)) cands
              | None => false
              end
       end
   | _ => true
   end.
 Definition e4_top (c : case) : bool :=
-  match c_plain c with None => true | Some ob => forallb (e4_top_entry (c_prog c) (o_ops ob)) (o_ops ob) end.
+  match c_plain c with None => true | Some ob => forallb (e4_top_entry (c_prog c) (c_top_ref c) (o_ops ob)) (o_ops ob) end.
 
 Definition spec_ok (c : case) : bool :=
   obs_ok (c_plain c) && obs_ok (c_plain_dur_first c) && obs_ok (c_unrolled c) && obs_ok (c_unrolled_twice c) && e4 c && e4_top c.
